@@ -254,3 +254,30 @@ pub(crate) async fn settle(mut done: impl FnMut() -> bool, what: &str) {
         tokio::time::sleep(Duration::from_micros(200)).await;
     }
 }
+
+/// Add a passive static neighbour with the given hold time (helper for harness parts
+/// outside the event module, which cannot call the private Global::add_peer).
+pub(crate) async fn add_simple_peer(d: &Daemon, addr: IpAddr, holdtime: u64, expected_as: u32) -> Result<(), String> {
+    let mut p = default_peer_params(addr);
+    p.passive = true;
+    p.holdtime = holdtime;
+    p.expected_remote_asn = expected_as;
+    d.global.write().await.add_peer(p, None).map_err(|_| "add_peer failed".to_string())
+}
+
+/// FSM states of both connection roles and occupancy of the close-channel slots of a neighbour.
+pub(crate) async fn arbiter_view(d: &Daemon, addr: IpAddr) -> Option<(crate::fsm::State, crate::fsm::State, bool, bool)> {
+    let g = d.global.read().await;
+    let p = g.peers.get(&addr)?;
+    let ctx = p.context.lock().unwrap();
+    let arb = ctx.conn_arbiter.lock().unwrap();
+    Some((arb.state(crate::fsm::Role::Active), arb.state(crate::fsm::Role::Passive), arb.active_close_tx.is_some(), arb.passive_close_tx.is_some()))
+}
+
+/// The shutdown_peer API: CloseReason::AdminShutdown to every live session of the neighbour.
+pub(crate) async fn admin_shutdown(d: &Daemon, addr: IpAddr) {
+    let g = d.global.read().await;
+    if let Some(p) = g.peers.get(&addr) {
+        p.context.lock().unwrap().force_down(CloseReason::AdminShutdown, false);
+    }
+}
